@@ -2,6 +2,8 @@ package engine
 
 import (
 	"fmt"
+	"os"
+	"path/filepath"
 	"sort"
 	"strings"
 	"testing"
@@ -28,6 +30,32 @@ type SimCase struct {
 	Mutated string            // MUT: description of the mutation applied ("" = none)
 	RenInfo *gen.Renaming
 	StageRen *gen.Renaming // the generator's own respelling stage (not C14's twin)
+	Corpus   string        // name of the repository example used instead of a generated program
+}
+
+type corpusFile struct{ name, text string }
+
+var corpusCache []corpusFile
+var corpusLoaded bool
+
+// corpus returns the closed example programs of the repository (those without `assuming`).
+func corpus() []corpusFile {
+	if corpusLoaded {
+		return corpusCache
+	}
+	corpusLoaded = true
+	files, _ := filepath.Glob("/repo/examples/*.grits")
+	more, _ := filepath.Glob("/repo/examples/others/*.grits")
+	files = append(files, more...)
+	sort.Strings(files)
+	for _, f := range files {
+		b, err := os.ReadFile(f)
+		if err != nil || strings.Contains(string(b), "assuming") {
+			continue
+		}
+		corpusCache = append(corpusCache, corpusFile{filepath.Base(f), string(b)})
+	}
+	return corpusCache
 }
 
 type Violation struct {
@@ -73,6 +101,27 @@ func DrawSimCase(ch Chooser, prop string) *SimCase {
 	c.Opts.Collide = ch.Intn(2) == 1
 	if prop == "C02" {
 		c.Opts.MainStructured = ch.Intn(2) == 1
+		// second profile: unconsumed roots may contain servers nobody calls; the oracle then
+		// compares with what the reference semantics itself leaves alive
+		c.Opts.NegativeRoots = c.Opts.MainStructured && ch.Intn(3) == 1
+	}
+	if (prop == "C01" || prop == "C02" || prop == "C03") && len(corpus()) > 0 && ch.Intn(40) == 1 {
+		// CORPUS: one of the repository's own closed example programs (no AST, hence no REF)
+		files := corpus()
+		f := files[ch.Intn(len(files))]
+		c.Prog = &lang.Program{TEnv: lang.TyEnv{}}
+		c.Src = f.text
+		c.Corpus = f.name
+		c.Mutated = "corpus:" + f.name
+		modes := polarized
+		c.Runs = []sim.Config{drawRunConfig(ch, modes, false)}
+		if prop == "C03" {
+			c.Runs = []sim.Config{{Mode: process.NORMAL_ASYNC, CancelAt: -1}, drawRunConfig(ch, modes, false)}
+		}
+		for i := range c.Runs {
+			c.Runs[i].MaxSteps = 20000
+		}
+		return c
 	}
 	c.Prog = gen.Generate(ch.Intn, c.Opts)
 	// generator stages: respell the program (deliberate name coincidences, provider-alias
